@@ -77,7 +77,8 @@ Record sender := mkS { s_pc : spc; s_script : list nat }.
 (* ---------------------------------------------------------------------- *)
 Inductive lop :=
 | OpRun (dflt : bool)   (* uv_run(UV_RUN_DEFAULT) if dflt else uv_run(UV_RUN_ONCE) *)
-| OpClose (h : nat).    (* uv_close(h) between two runs *)
+| OpClose (h : nat)     (* uv_close(h) between two runs *)
+| OpNowait.             (* uv_run(UV_RUN_NOWAIT): one iteration with timeout 0 *)
 
 Inductive lpc :=
 | LTop                  (* between two API calls of the loop thread's script *)
@@ -264,6 +265,9 @@ Definition loop_step (drain_first : bool) (s : state) : option state :=
     | OpRun d :: rest =>
       let s1 := with_lp s (set_mode d (set_script rest l)) in
       if alive s1 then Some (poll_point s1) else Some s1
+    | OpNowait :: rest =>
+      let s1 := with_lp s (set_mode false (set_script rest l)) in
+      if alive s1 then Some (lpc_to s1 (LPoll true)) else Some s1
     end
   | LPoll nb =>
     if efd s >? 0 then
@@ -337,6 +341,64 @@ Definition sender_idle (x : sender) : bool :=
 Definition quiescent (s : state) : bool :=
   forallb sender_idle (snd s) &&
   match l_pc (lp s) with LPoll false => efd s <=? 0 | _ => false end.
+
+(* ---------------------------------------------------------------------- *)
+(* fork(): what the child's loop looks like after uv_loop_fork()            *)
+(* (uv__async_fork, async.c :372-411)                                       *)
+(* ---------------------------------------------------------------------- *)
+(* The child is a copy of the parent's memory with only the forking thread alive.
+   uv__async_fork walks loop->async_handles and stores pending = 0, busy = 0 in every
+   handle on it (handles already unlinked by uv_close are not touched), closes the
+   wake-up descriptor and creates a new one (uv__async_start: eventfd, counter 0).
+   The ghost counters restart: the child counts its own sends and callbacks.
+   fork() is called by the loop thread between two API calls (program counter LTop). *)
+Definition fork_clear (x : handle) : handle := mkH false 0 (hst x) (unl x) 0 0 0 0.
+Definition fork_keep (x : handle) : handle := mkH (pending x) (busy x) (hst x) (unl x) 0 0 0 0.
+
+Definition async_fork (s : state) (lscript : list lop) (beh : nat -> list nat)
+                      (scripts : list (list nat)) : state :=
+  mkSt (fun k => if existsb (Nat.eqb k) (lst s) then fork_clear (hs s k) else fork_keep (hs s k))
+       (map (mkS SIdle) scripts)
+       (mkL LTop lscript [] [] false false O (l_closing (lp s)) (l_active (lp s))
+            (l_closed (lp s)) beh)
+       (lst s) 0 [].
+
+(* Parent and child side by side.  Every process has a wake-up channel (the open file
+   behind its eventfd descriptor), named by a number; [ctr] is the counter of every
+   channel.  A step of a process runs on the counter of its own channel. *)
+Record sys := mkSys {
+  par : state; chi : state;
+  ch_par : nat; ch_chi : nat;
+  ctr : nat -> Z
+}.
+
+Definition sys_step (y : sys) (child : bool) (tid : nat) : option sys :=
+  let ch := if child then ch_chi y else ch_par y in
+  let s := with_efd (if child then chi y else par y) (ctr y ch) in
+  match step s tid with
+  | None => None
+  | Some s' =>
+    let c' := fun k => if Nat.eqb k ch then efd s' else ctr y k in
+    Some (if child then mkSys (par y) s' (ch_par y) (ch_chi y) c'
+          else mkSys s' (chi y) (ch_par y) (ch_chi y) c')
+  end.
+
+Fixpoint sys_run (y : sys) (sched : list (bool * nat)) : option sys :=
+  match sched with
+  | [] => Some y
+  | (c, t) :: r => match sys_step y c t with
+                   | Some y' => sys_run y' r
+                   | None => None
+                   end
+  end.
+
+(* fork + uv_loop_fork in the child.  [fresh] = true is the code as it is: the child's
+   channel is a new open file.  [fresh] = false is the (wrong) variant in which the child
+   keeps the parent's eventfd. *)
+Definition fork_sys (fresh : bool) (s : state) (lscript : list lop) (beh : nat -> list nat)
+                    (scripts : list (list nat)) : sys :=
+  mkSys s (async_fork s lscript beh scripts) O (if fresh then 1%nat else O)
+        (fun k => if Nat.eqb k O then efd s else 0).
 
 (* ---------------------------------------------------------------------- *)
 (* Coarser steps for the correspondence check                               *)
